@@ -33,3 +33,15 @@ def first_finding(checks):
             out.append(f)
             break
     return out
+
+
+def definitional_oracle_at(units, relation):
+    """For properties of the form "the code equals its definition": the Gallina model of these units is PROVED equal to the
+    declarative definition, so an input on which the implementation's outcome differs from the model's is itself a
+    concrete input on which the property fails (it is the shrunk mismatching case of the correspondence)."""
+    def oracle_at(unit, case, impl):
+        if unit in units:
+            return {'function': 'unit:' + unit, 'relation': relation, 'input': case, 'observed': impl,
+                    'why': 'the implementation differs, on this input, from the model that is proved equal to the definition (shrunk correspondence mismatch)'}
+        return None
+    return oracle_at
